@@ -98,6 +98,7 @@ type lcJob struct {
 	Known     []string     `json:"known"`
 	Workers   int          `json:"workers"`
 	WaitMs    int          `json:"wait_ms"`
+	StopAfter int          `json:"stop_after"` // stop starting behaviours once this many have shown an unlisted violation
 }
 
 type lcViolation struct {
@@ -576,6 +577,20 @@ func (w *lcWorld) refCount() int32 {
 	return 0
 }
 
+// the teardown lambda holds shutdownLock for its whole duration (also while it waits for a running callback): never block
+// on it; when it cannot be had the holder is the teardown, which does not write the fields read here
+func lcLocked(s *Session, f func()) {
+	for k := 0; k < 20; k++ {
+		if s.shutdownLock.TryLock() {
+			f()
+			s.shutdownLock.Unlock()
+			return
+		}
+		time.Sleep(100 * time.Microsecond)
+	}
+	f()
+}
+
 func lcErrClass(err error) string {
 	switch err {
 	case nil:
@@ -604,17 +619,18 @@ func (w *lcWorld) observe() *lcExp {
 	x := &lcExp{St: make([]string, n), InTable: make([]bool, n), Notified: make([]bool, n), CbBusy: make([]bool, n),
 		CbL: make([]int, n), CbR: make([]int, n), Unread: make([]int, n), Rd: make([]string, n)}
 	x.Shutdown = int(atomic.LoadUint32(&s.shutdown))
-	s.shutdownLock.Lock()
-	switch s.shutdownErr {
-	case nil:
-		x.Serr = "nil"
-	case ErrSessionShutdown:
-		x.Serr = "user"
-	default:
-		x.Serr = "reset"
-	}
-	qmNil := s.queueManager == nil
-	s.shutdownLock.Unlock()
+	qmNil := false
+	lcLocked(s, func() {
+		switch s.shutdownErr {
+		case nil:
+			x.Serr = "nil"
+		case ErrSessionShutdown:
+			x.Serr = "user"
+		default:
+			x.Serr = "reset"
+		}
+		qmNil = s.queueManager == nil
+	})
 	x.ShutCh = lcChanClosed(s.shutdownCh)
 	if w.dS != nil {
 		w.dS.lambdaLock.Lock()
@@ -680,11 +696,11 @@ func (w *lcWorld) observe() *lcExp {
 	// buffer manager reference of this end
 	peerDone := int32(0)
 	if w.pr != nil {
-		w.pr.shutdownLock.Lock()
-		if w.pr.queueManager == nil {
-			peerDone = 1
-		}
-		w.pr.shutdownLock.Unlock()
+		lcLocked(w.pr, func() {
+			if w.pr.queueManager == nil {
+				peerDone = 1
+			}
+		})
 	}
 	if w.refCount() == w.baseRef-peerDone {
 		x.Bm = "held"
@@ -697,11 +713,11 @@ func (w *lcWorld) observe() *lcExp {
 	} else {
 		x.Qm = "mapped"
 		x.Flag = -1
-		s.shutdownLock.Lock()
-		if s.queueManager != nil {
-			x.Flag = int(atomic.LoadUint32(s.queueManager.sendQueue.workingFlag))
-		}
-		s.shutdownLock.Unlock()
+		lcLocked(s, func() {
+			if qm := s.queueManager; qm != nil {
+				x.Flag = int(atomic.LoadUint32(qm.sendQueue.workingFlag))
+			}
+		})
 	}
 	x.Out = w.outstanding()
 	return x
@@ -1119,9 +1135,8 @@ func lcTornDown(s *Session) bool {
 	if s == nil {
 		return true
 	}
-	s.shutdownLock.Lock()
-	q := s.queueManager == nil
-	s.shutdownLock.Unlock()
+	q := false
+	lcLocked(s, func() { q = s.queueManager == nil })
 	if !q {
 		return false
 	}
@@ -1985,14 +2000,25 @@ func TestVS_Lifecycle(t *testing.T) {
 	}
 	close(idx)
 	var wg sync.WaitGroup
+	var bad int32
 	for k := 0; k < job.Workers; k++ {
 		wg.Add(1)
 		go func() {
 			defer wg.Done()
 			for i := range idx {
+				if job.StopAfter > 0 && atomic.LoadInt32(&bad) >= int32(job.StopAfter) {
+					out.Results[i] = lcSchedResult{Name: job.Schedules[i].Name, Violations: []lcViolation{}, KfSeen: []string{}, Harness: "skipped"}
+					continue
+				}
 				logp("start " + job.Schedules[i].Name)
 				out.Results[i] = lcRunSchedule(&job.Schedules[i], job.Mode, dir, known)
 				logp("end " + job.Schedules[i].Name)
+				for _, v := range out.Results[i].Violations {
+					if v.Known == "" || !known[v.Known] {
+						atomic.AddInt32(&bad, 1)
+						break
+					}
+				}
 			}
 		}()
 	}
